@@ -30,7 +30,7 @@ def dispatch (op : String) : Option (List String → String → Res) :=
   | "bsnew" => some hBsNew | "bscmp" => some hBsCmp | "bscmpupto" => some hBsCmpUpto
   | "bwfromstr" => some hBwFromStr | "bwtostr" => some hBwToStr | "bwrt" => some hBwRoundTrip
   | "bwget" => some hBwGet | "bwfirstdiff" => some hBwFirstDiff | "bwstrs" => some hBwStrs
-  | "fdb" => some hFdb | "countprefixes" => some hCountPrefixes | "shard" => some hShard
+  | "fdb" => some hFdb | "countprefixes" => some hCountPrefixes | "cpm" => some hCountPrefixesMany | "shard" => some hShard
   | "sw" => some hSw | "atw" => some hAtw | "swn" => some hSwn
   | "pbmk" => some hPbMarshal | "pbrt" => some hPbRt | "pbs" => some hPbStream | "pbraw" => some hPbRaw | "pbh" => some hPbHeader
   | "sizeofgen" => some hSizeOf | "sizeofnamed" => some hSizeOf
